@@ -52,6 +52,15 @@ theorem mkObj_id (cfg : Cfg K V) (id : Nat) (p : List V) (o : Obj K) (h : mkObj 
     split <;> rfl
   · cases h
 
+theorem mkObj_count (cfg : Cfg K V) (id : Nat) (p : List V) (o : Obj K) (h : mkObj cfg id p = some o) :
+    o.count = p.length := by
+  unfold mkObj at h
+  split at h
+  · simp only [Option.some.injEq] at h
+    subst h
+    split <;> rfl
+  · cases h
+
 theorem fileOf_append_none (files ext : List (Nat × List V)) (id : Nat)
     (h : ∀ f ∈ ext, f.1 ≠ id) : fileOf (files ++ ext) id = fileOf files id := by
   unfold fileOf
@@ -77,6 +86,8 @@ structure Written (cfg : Cfg K V) (s s1 : State K V) (objs : List (Obj K)) (part
   nodup : (objs.map (·.id)).Nodup
   ext : ∃ e, s1.files = s.files ++ e ∧ ∀ f ∈ e, s.nextObj ≤ f.1 ∧ f.1 < s1.nextObj
   payload : objs.flatMap (pay s1.files) = parts.flatten
+  counts : ∀ o ∈ objs, ∀ p, fileOf s1.files o.id = some p → o.count = p.length
+  present : ∀ o ∈ objs, (fileOf s1.files o.id).isSome = true
 
 theorem writeObjs_spec (cfg : Cfg K V) (s : State K V) (parts : List (List V))
     (hf : ∀ f ∈ s.files, f.1 < s.nextObj) :
@@ -84,7 +95,7 @@ theorem writeObjs_spec (cfg : Cfg K V) (s : State K V) (parts : List (List V))
   induction parts generalizing s with
   | nil =>
     exact { next := Nat.le_refl _, ids := by simp [writeObjs], nodup := by simp [writeObjs],
-            ext := ⟨[], by simp [writeObjs]⟩, payload := by simp [writeObjs] }
+            ext := ⟨[], by simp [writeObjs]⟩, payload := by simp [writeObjs], counts := by simp [writeObjs], present := by simp [writeObjs] }
   | cons p ps ih =>
     unfold writeObjs
     split
@@ -92,7 +103,7 @@ theorem writeObjs_spec (cfg : Cfg K V) (s : State K V) (parts : List (List V))
       have hp := mkObj_none cfg _ p hn
       have w := ih s hf
       exact { next := w.next, ids := w.ids, nodup := w.nodup, ext := w.ext,
-              payload := by rw [w.payload, hp]; simp }
+              payload := by rw [w.payload, hp]; simp, counts := w.counts, present := w.present }
     · rename_i o ho
       have hoid := mkObj_id cfg _ p o ho
       simp only []
@@ -143,6 +154,44 @@ theorem writeObjs_spec (cfg : Cfg K V) (s : State K V) (parts : List (List V))
               simp only [beq_iff_eq]; omega
             rw [hnone]; simp
           simp only [] at this ⊢
-          rw [this]; rfl }
+          rw [this]; rfl
+        counts := by
+          intro o' ho' q hq
+          simp only [List.mem_cons] at ho'
+          rcases ho' with h | h
+          · subst h
+            rw [he, hoid] at hq
+            have : fileOf (s.files ++ [(s.nextObj, p)] ++ e) s.nextObj = some p := by
+              apply fileOf_append
+              unfold fileOf
+              rw [List.find?_append]
+              have hnone : s.files.find? (·.1 == s.nextObj) = none := by
+                rw [List.find?_eq_none]; intro f hfm
+                have := hf f hfm
+                simp only [beq_iff_eq]; omega
+              rw [hnone]; simp
+            simp only [] at this hq
+            rw [this] at hq
+            cases hq
+            exact mkObj_count cfg _ _ _ ho
+          · exact w.counts o' h q hq
+        present := by
+          intro o' ho'
+          simp only [List.mem_cons] at ho'
+          rcases ho' with h | h
+          · subst h
+            rw [he, hoid]
+            have : fileOf (s.files ++ [(s.nextObj, p)] ++ e) s.nextObj = some p := by
+              apply fileOf_append
+              unfold fileOf
+              rw [List.find?_append]
+              have hnone : s.files.find? (·.1 == s.nextObj) = none := by
+                rw [List.find?_eq_none]; intro f hfm
+                have := hf f hfm
+                simp only [beq_iff_eq]; omega
+              rw [hnone]; simp
+            simp only [] at this ⊢
+            rw [this]; rfl
+          · exact w.present o' h }
 
 end Zed.Lake
